@@ -1,8 +1,10 @@
 package c07
 
 import (
+	"encoding/json"
 	"fmt"
 	"os"
+	"os/exec"
 	"path/filepath"
 	"sort"
 	"strings"
@@ -228,20 +230,186 @@ func lost(sc scen, a *attempt, o *outcome) bool {
 
 // Run: B3.  Every scenario of the schedule alphabet is forced on the real code with gates, several
 // times (Go's select is random: a loss seen once is a loss); one trace per attempt.
+//
+// The scenarios run in a child process (same binary, env C07_CHILD): a graceful stop that kills the
+// process (a panic in a helper goroutine of the code under test cannot be recovered by the harness) is
+// an observation like any other - the parent records a ProcessCrashed trace for the scenario that was
+// running and continues with the next one in a fresh child.
 func Run(r *rt.Run) error {
+	if os.Getenv("C07_CHILD") != "" {
+		return runChild(r)
+	}
+	exe, err := os.Executable()
+	if err != nil {
+		return err
+	}
+	scens, _ := scenarios(r)
+	crashT := r.NewTrace("crashes")
+	var metas []*rt.Meta
+	from, crashes := 0, 0
+	for round := 0; from < len(scens); round++ {
+		dir := filepath.Join(r.OutDir, fmt.Sprintf("child-%d", round))
+		if err := os.MkdirAll(dir, 0o755); err != nil {
+			return err
+		}
+		errPath := filepath.Join(dir, "stderr.txt")
+		errF, err := os.Create(errPath)
+		if err != nil {
+			return err
+		}
+		cmd := exec.Command(exe, "c07", "-tier", r.Tier, "-seed", fmt.Sprint(r.Seed), "-out", dir)
+		cmd.Env = append(os.Environ(), "C07_CHILD=1", fmt.Sprintf("C07_FROM=%d", from))
+		cmd.Stdout, cmd.Stderr = os.Stdout, errF
+		runErr := cmd.Run()
+		errF.Close()
+		if m, err := readMeta(dir); err == nil {
+			metas = append(metas, m)
+		}
+		if runErr == nil {
+			break
+		}
+		stderr, _ := os.ReadFile(errPath)
+		if strings.Contains(string(stderr), "HARNESS-ERROR") {
+			os.Stderr.Write(tailBytes(stderr, 4000))
+			return fmt.Errorf("child driver failed: %v", runErr)
+		}
+		// the process died: which scenario was running?
+		prog, perr := os.ReadFile(filepath.Join(dir, "progress"))
+		var idx, att int
+		if perr != nil {
+			os.Stderr.Write(tailBytes(stderr, 4000))
+			return fmt.Errorf("child driver died before its first scenario: %v", runErr)
+		}
+		fmt.Sscan(string(prog), &idx, &att)
+		sc := scens[idx]
+		crashes++
+		if crashes > 20 {
+			return fmt.Errorf("more than 20 process crashes, giving up (last: %s)", sc.key())
+		}
+		crashT.Reset(rt.M{"pipe": sc.Pipe, "api": sc.Stop, "kind": apiKind(sc.Stop), "stall": sc.Stall, "release": sc.Release,
+			"fail": sc.Fail, "n": sc.N, "racing": sc.Racing, "cap": 1000, "attempt": att, "stallKind": "", "stallNode": "",
+			"topo": rt.M{"kinds": []any{"pass"}, "edges": []any{rt.M{"from": 0, "to": 1, "f": "all"}}, "outf": []any{"none"},
+				"outs": rt.M{}, "nodes": []any{"?"}}})
+		crashT.Event("StopCall", rt.M{"api": sc.Stop})
+		crashT.Event("ProcessCrashed", rt.M{"scenario": sc.key(), "panic": crashLine(string(stderr))})
+		_ = os.WriteFile(filepath.Join(r.OutDir, fmt.Sprintf("dump-crash-%d.txt", crashes)), tailBytes(stderr, 20000), 0o644)
+		from = idx + 1
+	}
+	// combined meta: the children's traces plus the crash traces
+	if err := crashT.Close(); err != nil {
+		return err
+	}
+	m := &rt.Meta{Property: r.Property, Tier: r.Tier, Seed: r.Seed, Extra: map[string]any{}}
+	sum := map[string]int{}
+	for _, cm := range metas {
+		m.Traces += cm.Traces
+		m.Events += cm.Events
+		m.Distinct += cm.Distinct
+		m.Rule = cm.Rule
+		if cm.Traces > 0 { // a child killed in its very first scenario leaves an empty trace file
+			m.TraceFiles = append(m.TraceFiles, cm.TraceFiles...)
+		}
+		for _, sm := range cm.Samples {
+			if len(m.Samples) < 4 {
+				m.Samples = append(m.Samples, sm)
+			}
+		}
+		for k, v := range cm.Extra {
+			switch x := v.(type) {
+			case float64:
+				sum[k] += int(x)
+			default:
+				m.Extra[k] = v
+			}
+		}
+	}
+	for k, v := range sum {
+		m.Extra[k] = v
+	}
+	m.Extra["scenarios"] = len(scens)
+	m.Extra["process_crashes"] = crashes
+	m.Traces += crashT.Traces
+	m.Events += crashT.Events
+	if crashT.Traces > 0 {
+		m.TraceFiles = append(m.TraceFiles, crashT.Path())
+	}
+	if len(m.TraceFiles) == 0 {
+		return fmt.Errorf("no traces recorded")
+	}
+	return rt.WriteMeta(r.OutDir, m)
+}
+
+func readMeta(dir string) (*rt.Meta, error) {
+	b, err := os.ReadFile(filepath.Join(dir, "meta.json"))
+	if err != nil {
+		return nil, err
+	}
+	m := &rt.Meta{}
+	return m, json.Unmarshal(b, m)
+}
+
+func tailBytes(b []byte, n int) []byte {
+	if len(b) > n {
+		return b[len(b)-n:]
+	}
+	return b
+}
+
+// crashLine: the line that says why the process died ("panic: ..." / "fatal error: ...").
+func crashLine(stderr string) string {
+	for _, ln := range strings.Split(stderr, "\n") {
+		if strings.HasPrefix(ln, "panic:") || strings.HasPrefix(ln, "fatal error:") || strings.Contains(ln, "[signal ") {
+			return firstLine(ln)
+		}
+	}
+	return "process died"
+}
+
+func runChild(r *rt.Run) error {
 	post := newPostSink()
 	defer post.Close()
 	t := r.NewTrace("trace")
 	scens, attempts := scenarios(r)
+	from := 0
+	fmt.Sscan(os.Getenv("C07_FROM"), &from)
 	cnt := counters{bySig: map[string]int{}}
 	dumps := 0
 	t0 := time.Now()
-	for _, sc := range scens {
+	finish := func() {
+		sigs := []string{}
+		for s, c := range cnt.bySig {
+			sigs = append(sigs, fmt.Sprintf("%s x%d", s, c))
+		}
+		sort.Strings(sigs)
+		r.Extra["attempts_per_scenario"] = attempts
+		r.Extra["attempts"] = cnt.attempts
+		r.Extra["attempts_hung"] = cnt.hung
+		r.Extra["attempts_stop_panicked"] = cnt.panicked
+		r.Extra["attempts_with_leak"] = cnt.leaks
+		r.Extra["attempts_with_loss"] = cnt.lossy
+		r.Extra["attempts_with_node_failure"] = cnt.failed
+		r.Extra["stop_returned_with_gate_closed"] = cnt.early
+		if len(sigs) > 0 {
+			r.Extra["leak_signatures"] = strsAny(sigs)
+		}
+		r.Extra["driver_wall_s"] = int(time.Since(t0).Seconds())
+		r.Finish("real stream tasks (influxDBOut buffer 1/3/default, chain, alert with own handler, log, httpPost, kapacitorLoopback, fork, union, join, UDF) stopped with StopTask/DeleteTask/TaskMaster.Close/Drain+StopTasks while a gate (sink, node start, node after its k-th message) holds the backlog at a chosen place, 5..2400 points in flight (edge capacity 1000), with and without a failing node or a racing writer; each scenario attempted several times (Go select is random); non-trivial = scenario with a held backlog, a failing node or a racing writer, distinct by scenario", false)
+	}
+	for si := from; si < len(scens); si++ {
+		sc := scens[si]
 		n := attempts
 		if sc.Pipe == "loopback" && strings.HasPrefix(sc.Stall, "run:") && sc.N > 1000 && apiKind(sc.Stop) == "task" {
 			n = 1 // the known deadlock: costs a few seconds per attempt and leaves a dead TaskMaster behind
 		}
 		for i := 0; i < n; i++ {
+			// what is running now, for the parent should this process die; the trace so far must be on disk too
+			if err := t.Flush(); err != nil {
+				return err
+			}
+			finishPartial(r, t)
+			if err := os.WriteFile(filepath.Join(r.OutDir, "progress"), []byte(fmt.Sprintf("%d %d", si, i)), 0o644); err != nil {
+				return err
+			}
 			ta := time.Now()
 			o, a, err := runAttempt(sc, post, stdDeadlines)
 			if err != nil {
@@ -277,31 +445,23 @@ func Run(r *rt.Run) error {
 			if (o.Hung || len(o.Leaked) > 0) && dumps < 6 {
 				dumps++
 				name := fmt.Sprintf("dump-%d-%s.txt", dumps, strings.NewReplacer("/", "_", ":", "-").Replace(sc.key()))
-				_ = os.WriteFile(filepath.Join(r.OutDir, name), []byte(o.HungDump+o.LeakDump), 0o644)
+				_ = os.WriteFile(filepath.Join(filepath.Dir(r.OutDir), name), []byte(o.HungDump+o.LeakDump), 0o644)
 			}
 		}
 		if sc.Stall != "" || sc.Fail != "" || sc.Racing > 0 {
 			t.Distinct(sc.key()) // non-trivial: a backlog is held somewhere, a node fails, or a writer races with the stop
 		}
 	}
-	sigs := []string{}
-	for s, c := range cnt.bySig {
-		sigs = append(sigs, fmt.Sprintf("%s x%d", s, c))
-	}
-	sort.Strings(sigs)
-	r.Extra["scenarios"] = len(scens)
-	r.Extra["attempts_per_scenario"] = attempts
-	r.Extra["attempts"] = cnt.attempts
-	r.Extra["attempts_hung"] = cnt.hung
-	r.Extra["attempts_stop_panicked"] = cnt.panicked
-	r.Extra["attempts_with_leak"] = cnt.leaks
-	r.Extra["attempts_with_loss"] = cnt.lossy
-	r.Extra["attempts_with_node_failure"] = cnt.failed
-	r.Extra["stop_returned_with_gate_closed"] = cnt.early
-	r.Extra["leak_signatures"] = strsAny(sigs)
-	r.Extra["driver_wall_s"] = int(time.Since(t0).Seconds())
-	r.Finish("real stream tasks (influxDBOut buffer 1/3/default, chain, alert with own handler, log, httpPost, kapacitorLoopback, fork, union, join) stopped with StopTask/DeleteTask/TaskMaster.Close/Drain+StopTasks while a gate (sink, node start, node after its k-th message) holds the backlog at a chosen place, 5..2400 points in flight (edge capacity 1000), with and without a failing node; each scenario attempted several times (Go select is random); non-trivial = scenario with a held backlog, a failing node or a racing writer, distinct by scenario", false)
+	finish()
 	return nil
+}
+
+// finishPartial keeps a meta.json that describes the trace written so far, so that a parent can use
+// it when this process is killed by the code under test.
+func finishPartial(r *rt.Run, t *rt.Trace) {
+	m := &rt.Meta{Property: r.Property, Tier: r.Tier, Seed: r.Seed, Traces: t.Traces, Events: t.Events, Distinct: t.NDistinct(),
+		TraceFiles: []string{t.Path()}, Samples: t.Samples(), Extra: map[string]any{}}
+	_ = rt.WriteMeta(r.OutDir, m)
 }
 
 // Probe: ad-hoc exploration (not part of the check).  kvh c07probe -out DIR <pipe> <n> <stop> <stall> <release> <fail> [attempts]
